@@ -8,7 +8,8 @@
        - the glob patterns of a key's DAG match the key's rendered file name (today pattern: iff the day agrees)
        - the time-stamp scan of a key's rendered path finds its start stamp (with milliseconds)
        - rendering is injective on K; the compaction twin's name is the one jsondb.Compact computes; no pattern matches the temporary
-         copy <twin>.tmp; only a compacted key's path ends in _c.dat and dropCompacted maps it to the path of its original
+         copy <twin>.tmp; only a compacted key's path ends in _c.dat and dropCompacted maps it to the path of its original; the
+         compacted copy's path is greater than its original's (reverse-order lookup)
    Before the repairs 8ffc003 / e6d6379 names with glob metacharacters or stamp-like substrings falsified these premises
    (F6b / F6c); on the repaired code they satisfy them (Examples in Hist/ProofsC06Ex.v).
    No string reasoning happens beyond these premises (and replace1 on a prefix). *)
@@ -82,7 +83,8 @@ Definition key_okb (D : list string) (days : list string) (K : list skey) (k : s
   && (k_tmp k || String.eqb (find_ts (rpath k)) (k_stamp k))
   && forallb (fun k' => implb (String.eqb (rname k) (rname k') && String.eqb (k_dag k) (k_dag k')) (skey_eqb k k')) K
   && (k_c k || k_tmp k || String.eqb (trim_ext (rname k) ++ "_c.dat") (rname (twin k)))
-  && (k_tmp k || orig_okb K k).
+  && (k_tmp k || orig_okb K k)
+  && (k_c k || k_tmp k || String.ltb (rpath k) (rpath (twin k))).
 Definition names_okb (D : list string) (days : list string) (K : list skey) : bool :=
   forallb (dag_okb D days) D && forallb (key_okb D days K) K.
 
@@ -156,6 +158,12 @@ Lemma nk_twin k : In k K -> k_c k = false -> k_tmp k = false -> trim_ext (rname 
 Proof.
   intros H C T. key_facts k H.
   match goal with X : (k_c k || k_tmp k || _)%bool = true |- _ => rewrite C, T in X; simpl in X; apply String.eqb_eq; exact X end.
+Qed.
+(* the compacted copy's path is the larger one: FindByRequestID, which scans the matches in reverse order, meets it first *)
+Lemma nk_twin_lt k : In k K -> k_c k = false -> k_tmp k = false -> String.ltb (rpath k) (rpath (twin k)) = true.
+Proof.
+  intros H C T. key_facts k H.
+  match goal with X : (k_c k || k_tmp k || String.ltb _ _)%bool = true |- _ => rewrite C, T in X; simpl in X; exact X end.
 Qed.
 Lemma app_empty_r (x : string) : x ++ "" = x.
 Proof. induction x; simpl; auto. f_equal. auto. Qed.
